@@ -120,6 +120,16 @@ def build(tree):
     return n0dict.convert_recursively(copy.deepcopy(tree))
 
 
+def build_ops(case):
+    """the two operands; `plain_b` (optional) lists positions of the ROOT LIST of b whose record is left a plain
+    dict (the only way two items of a keyed list can have the same key and different types)"""
+    a, b = build(case["a"]), build(case["b"])
+    for i in case.get("plain_b", []):
+        if isinstance(b, list) and i < len(b) and isinstance(b[i], dict):
+            b[i] = dict(b[i])
+    return a, b
+
+
 def vtok(v):
     return enc_val(v).replace(" ", ",")
 
@@ -153,8 +163,7 @@ def run_impl(case, swap=False, override=None):
     c = dict(case)
     if override:
         c.update(override)
-    a = build(c["a"])
-    b = build(c["b"])
+    a, b = build_ops(c)
     if swap:
         a, b = b, a
     reset_flags()
@@ -232,8 +241,8 @@ def line_of(case, fl):
         enc_patarg(case.get("only", [])),
         enc_patarg(case.get("excl", [])),
         enc_tr(case.get("tr", [])),
-        enc_val(build(case["a"])),
-        enc_val(build(case["b"])),
+        enc_val(build_ops(case)[0]),
+        enc_val(build_ops(case)[1]),
     )
 
 
@@ -368,39 +377,25 @@ def walk_lists(t):
             yield from walk_lists(v)
 
 
-def contains_multikey_dict(t):
+def item_key(v):
+    """independent reading of 'the same list item': type and value for leaves, item by item for a nested list,
+    key by key (whatever their order) for a dictionary inside a nested list"""
+    if isinstance(v, dict):
+        return ("d", tuple(sorted((k, item_key(x)) for k, x in v.items())))
+    if isinstance(v, list):
+        return ("l", tuple(item_key(x) for x in v))
+    return (type(v).__name__, repr(v))
+
+
+def reorder_keys(rng, t):
+    """the same tree with the keys of every dictionary in another insertion order"""
     if isinstance(t, dict):
-        return len(t) >= 2 or any(contains_multikey_dict(v) for v in t.values())
+        ks = list(t)
+        rng.shuffle(ks)
+        return {k: reorder_keys(rng, t[k]) for k in ks}
     if isinstance(t, list):
-        return any(contains_multikey_dict(v) for v in t)
-    return False
-
-
-def has_str_collision(*trees):
-    """class C07-b: two non-record list items with the same str() that are not identical, or a
-    non-record item whose str() is the key '' of every record"""
-    groups = {}
-    for t in trees:
-        for lst in walk_lists(t):
-            for it in lst:
-                if isinstance(it, dict):
-                    continue
-                s = str(it)
-                if s == "":
-                    return True
-                groups.setdefault(s, set()).add(enc_val_plain(it))
-    return any(len(g) > 1 for g in groups.values())
-
-
-def has_key_order_class(*trees):
-    """class C07-c: a non-record list item that contains a dict with two or more keys
-    (its str() depends on the key order)"""
-    for t in trees:
-        for lst in walk_lists(t):
-            for it in lst:
-                if not isinstance(it, dict) and contains_multikey_dict(it):
-                    return True
-    return False
+        return [reorder_keys(rng, x) for x in t]
+    return t
 
 
 def enc_val_plain(v):
@@ -729,7 +724,7 @@ def mutate_keyed(rng, lst, fields, depth):
                     rec[k][kk] = change_value(rng, rec[k][kk], rng.random() < 0.2, 1, False)
                 elif isinstance(rec[k], list) and rec[k] and k == "items":
                     sub = rng.choice(rec[k])
-                    cc = [x for x in sub if x != "id"]
+                    cc = [x for x in sub if x != "id"] if isinstance(sub, dict) else []  # an earlier edit may have replaced an empty items list
                     if cc:
                         x = rng.choice(cc)
                         sub[x] = change_value(rng, sub[x], False, 1, False)
@@ -838,15 +833,15 @@ def generic_replay(rp, evaluators):
 
 # ---------------------------------------------------------------------------
 # declarative oracle of the report (used by C08/C09): which entries a comparison must produce
-# on recursively converted trees, without options, when no two non-record items of a list share
-# their str() with different values
+# on recursively converted trees, without options (non-record items are told apart by type and value,
+# dictionaries inside nested lists whatever the order of their keys: item_key)
 # ---------------------------------------------------------------------------
 def spec_key(item, fields):
     if isinstance(item, dict):
         if not fields:
             return ("rec", "")
         return ("rec", ";".join("%s=%s" % (f, str(item[f])) for f in fields if f in item))
-    return ("val", str(item))
+    return ("val", item_key(item))
 
 
 def spec_entries(x, y, path, fields, direct, out):
